@@ -162,8 +162,11 @@ exit 0: every obligation discharged or matched by a listed known finding (each l
 exit 1: at least one `VIOLATION property=<id> replay=<path> obligation=<name>` (a behavioural obligation that fails with a replayed
 input, or that was discharged in `baseline/<id>.json` and now fails; `no-failing-input-found` is appended when no input could be
 replayed); exit 2 `UNDECIDED`: tool limit, solver `unknown` after the retry, or a structural obligation that is new; exit 3
-`CHECKER-DEFECT`: fewer obligations than `expect_min_obligations`, a vacuity guard (`mustfail`) that verifies, a native
-cross-check that contradicts a *proved* contract, or a harness crash. `unknown`, timeouts and tracebacks are never mapped to a
+`CHECKER-DEFECT`: fewer obligations than `expect_min_obligations`, a vacuity guard (`mustfail`) that verifies, or a harness crash
+(a contract module that cannot be set up on the tree, a native harness error). A native cross-check that contradicts a *proved* contract
+on the real code was first classed as a checker defect; it is now the replayed violation it is (`<unit>/native-contract-check`, with the
+concrete input), and the replay file says that the verifier's model of Python missed it - seen for `is not` on equal strings created at
+run time and for `a = b = {{}}` at module level, both of which the engine cannot distinguish from `!=` / two objects. `unknown`, timeouts and tracebacks are never mapped to a
 violation. Two refinements: a run-time-error obligation (`.../rte/no-overflow-i16#k`, division by zero, conversion range) that has a counter-model is a
 regression whatever its number k (every such obligation was discharged on the pinned tree, and the numbering follows the operations of the
 code); and a unit whose contract can no longer be read against the code (a local it names is gone) is as unproved as one beyond a tool limit,
